@@ -21,7 +21,12 @@ HERE = os.path.dirname(os.path.abspath(__file__))
 sys.path.insert(0, HERE)
 import parse_models  # noqa: E402
 
-UNITS_DIR = os.path.dirname(HERE)
+UNITS_DIR = os.environ.get('EXPALL_OUT') or os.path.dirname(HERE)     # EXPALL_OUT: dry run into another directory
+# models whose functions ALSO count for a further property (same obligations, no contract changed).
+# C10 (documents built from scratch reload equal; mechanism "derived dictionary writers incl. indirect fields"): the derived
+# models a document produced by pdf/src/build.rs goes through -- page tree, catalog, info dictionary, page resources, fonts.
+EXTRA_PROPS = {'C10': ['Catalog', 'PageTree', 'Page', 'Resources', 'GraphicsStateParameters', 'InfoDict', 'Trapped',
+                       'FontType', 'TFont', 'Type0Font', 'CIDFont', 'FontDescriptor', 'FontStretch']}
 MAX_COST = int(os.environ.get('EXPALL_MAX_COST', '95'))     # budget per unit (sum of model costs), keeps a Verus run < ~60 s
 
 
@@ -944,6 +949,13 @@ def unit_py(uname, models, decl_only):
                 items.append("  '%s::to_primitive': enum_fn(%r, %r, 'ObjectWrite', 'to_primitive', RT, %r%s)," % (n, n, mod, ens, extra))
     L.append("UNIT = {\n 'name': %r,\n 'doc': 'pdf_derive expansions of %d derived models against their attribute tables (generated, see units/expansions_all)',\n"
              " 'timeout': 900,\n 'items': {\n%s\n },\n}\n" % (uname, len(models), '\n'.join(items)))
+    for prop, names in sorted(EXTRA_PROPS.items()):
+        mine = [mo['name'] for mo in models if mo['name'] in names]
+        if mine:
+            L.append("# %s: the functions of these models also count for %s (see EXTRA_PROPS in gen.py)\n"
+                     "for k__, it__ in UNIT['items'].items():\n"
+                     "    if it__['kind'] == 'fn' and k__.split('::')[0] in %r:\n"
+                     "        it__['props'] = list(it__['props']) + [%r]\n" % (prop, prop, mine, prop))
     return '\n'.join(L)
 
 
@@ -1155,6 +1167,11 @@ def main():
                         fns.append('to_primitive')
                         obs.append('wr_model, wr_frame, panic_free')
                 f.write('| `%s` | %s:%d | %s | %s |\n' % (MT(mo), mo['file'], mo['line'], ', '.join('`%s`' % x for x in fns), ' / '.join(obs)))
+            for prop_, names_ in sorted(EXTRA_PROPS.items()):
+                mine_ = [mo['name'] for mo in ms if mo['name'] in names_]
+                if mine_:
+                    f.write('\nAlso counted for **%s** (`EXTRA_PROPS` in gen.py; same obligations, no contract changed): %s.\n'
+                            % (prop_, ', '.join('`%s`' % x for x in mine_)))
             f.write('\nLemmas (template, per model): `_unknown`, `_absent`, `_failing`, `_type_checked`, `_dict_lookup`, `_unknown_dict`, `_roundtrip`, `_roundtrip_weak`, `_preserves` as applicable.\n')
             f.write('\n## Trusted in this unit beyond the shared env\nOpaque stand-ins with abstract codecs (models.rs): ')
             f.write(', '.join(sorted(set(re.findall(r'^pub struct (\w+)', models_rs(uname, ms, decl_only, covered), re.M)))) or 'none')
